@@ -58,6 +58,8 @@ def scan_trusted(jobs):
         if j.dfcc:
             for f, c in j.dfcc.get("replace", []):
                 out.add("callee replaced by its contract: %s (contract %s)" % (f, c or f))
+        for f, g in j.replace_calls:
+            out.add("calls to %s redirected to the harness stub %s (stands for the callee's contract)" % (f, g))
         for f in j.remove_bodies:
             out.add("callee body removed (nondeterministic result, no side effect; unreachable when the contract holds): %s" % f)
         if j.harness in seen:
@@ -160,8 +162,9 @@ def check(prop_id, tier, seed, only=None):
             g["status"] = "bounded"
         g["functions"].update(j.functions)
         g["jobs"] += 1
-        n = len(r.obligations)
-        ok = sum(1 for o in r.obligations if o["status"] == "SUCCESS")
+        kf = set(id(ob) for (jj, ob, f) in known_hits if jj is j)
+        n = sum(1 for o in r.obligations if id(o) not in kf)   # obligations of listed known findings are reported separately
+        ok = sum(1 for o in r.obligations if o["status"] == "SUCCESS" and id(o) not in kf)
         g["obligations"] += n
         g["discharged"] += ok
         g["loop_contracts"] += r.loop_contracts_applied
@@ -218,6 +221,7 @@ def check(prop_id, tier, seed, only=None):
             "undecided": [{"job": j.name, "reason": rs} for j, rs in undecided],
             "violations": vio_records,
             "known_findings_hit": [f["text"] for (_, _, f) in known_hits],
+            "known_finding_obligations_excluded_from_counts": len(known_hits),
             "solver_wall_s_total": round(solver_s, 1),
             "explanation": info.get("explanation", ""),
             "exhaustive": False,
@@ -227,7 +231,7 @@ def check(prop_id, tier, seed, only=None):
         "violations": nviol,
     }
     os.makedirs(os.path.join(core.VERIF, "evidence"), exist_ok=True)
-    if not only:
+    if not only and not os.environ.get("OFV_NO_EVIDENCE"):
         json.dump(ev, open(os.path.join(core.VERIF, "evidence", prop_id + ".json"), "w"), indent=1, sort_keys=True)
     print("[ofv] %s tier=%s jobs=%d obligations=%d discharged=%d violations=%d undecided=%d wall=%.0fs"
           % (prop_id, tier, len(jobs), tot_ob, tot_ok, nviol, len(undecided), time.time() - t0))
